@@ -6,6 +6,7 @@ import Proofs.ObjMachine
 import Proofs.GroupMachine
 import Proofs.EffectsTranslated
 import BycycleModel.ObjTrace
+import Proofs.ObjPipeline
 /-!
 # C14 — Bycycle objects reproduce the functional API and hold no stale state
 
@@ -167,5 +168,37 @@ example : reduceThresholds [("monotonicity_threshold", 4/5), ("min_n_cycles", 3)
 /-- the wiring of the object read off the source: `fit` hands EVERY stored setting to the homonymous parameter of `compute_features` (`thresholds` to
 `threshold_kwargs`) - the `Api.cf o.st x` of the object machine - and `plot` hands the stored table, signal, rate and thresholds to the summary plot. -/
 theorem C14_routing : ∀ r ∈ Routing.object, Routing.holds Slots.routes r = true := by decide +kernel
+
+open Obj in
+/-- HISTORIES MEET THE TABLE: the object machine instantiated with the MODELLED pipeline (`pipelineCycles`: extrema, midpoints, shape and burst features, labels). Whatever
+sequence of fits, edge recomputations, loads, edits and plots preceded it, a fit that succeeds stores exactly the pipeline's output for the CURRENT settings (centring,
+extrema options, thresholds with their defaults), and that table is a well-formed segmentation (C01) of the recording just fitted. -/
+theorem C14_fit_is_pipeline (rc : PipeOut → KV → Except Err PipeOut) (o : Obj Recording PipeOut) (ops : List (Op Recording PipeOut)) (r : Recording)
+    (hdone : (step (pipelineApi rc) (run (pipelineApi rc) o ops) (.fit r)).2 = .done) :
+    let cur := ops.foldl editSettings o.st
+    ∃ t, (step (pipelineApi rc) (run (pipelineApi rc) o ops) (.fit r)).1.df = some t ∧
+      cur.cycles = true ∧
+      pipelineCycles (centreOf cur) r.x (r.pad cur.fek) (r.b cur.fek (centreOf cur)) r.amp (r.bd cur.fek) (cycThreshOf cur.thresholds) = .ok t ∧
+      ((r.b cur.fek (centreOf cur)).length = r.x.length + 2 * r.pad cur.fek → wellFormed t.samples r.x.length (r.bd cur.fek)) :=
+  fit_is_pipeline rc o ops r hdone
+
+open Obj in
+/-- a group fit that succeeds, with `compute_features_2d(axis=0)` taken as what C11 proves it to be (the per-signal analysis, position by position): at every position
+the group's table and its model's table are `compute_features` of the signal AT THAT POSITION with the group's settings, and the model holds that signal and those settings. -/
+theorem C14_group_fit_per_signal {S T : Type} (A : Api S T) (g : GObj S T) (xs : List S)
+    (hdone : (gstep A (perSignal A.cf) g (.fit xs)).2 = .done) :
+    ∀ (i : Nat) (x : S), xs[i]? = some x →
+      ∃ (t : T) (m : Obj S T), A.cf g.st x = .ok t ∧ (gstep A (perSignal A.cf) g (.fit xs)).1.dfs[i]? = some t ∧
+        (gstep A (perSignal A.cf) g (.fit xs)).1.models[i]? = some m ∧ m.df = some t ∧ m.sig = some x ∧ m.st = g.st :=
+  group_fit_per_signal A g xs hdone
+
+/-- non-vacuity: a fit on the modelled pipeline that succeeds (the 22-sample recording of C01's example, default thresholds except a minimum of one cycle). -/
+example :
+    (Obj.step (Obj.pipelineApi fun t _ => .ok t)
+      (Obj.construct (S := Obj.Recording) (T := PipeOut) true true none (some [("min_n_cycles", 1), ("monotonicity_threshold", 0), ("amp_consistency_threshold", 0), ("period_consistency_threshold", 0)]) none true)
+      (.fit ⟨[0, 1, 3, 3, 1, -1, -2, -2, 0, 1, 2, 1, -1, -1, 0, 2, 1, -3, -1, 0, 1, 2], fun _ => 0,
+             fun _ _ => ([0,0,1,1,1,1,0,0,0,0,1,1,1,0,0,1,1,0,0,0,1,1] : List Nat).map (· == 1), fun _ => 0,
+             [1, 1, 1, 1, 1, 1, 1, 1, 1, 1, 1, 1, 1, 1, 1, 1, 1, 1, 1, 1, 1, 1]⟩)).2 = .done := by
+  decide +kernel
 
 end Bycycle
